@@ -26,7 +26,7 @@ use std::sync::{Arc, Mutex};
 use cairo_lang_compiler::db::RootDatabase;
 use cairo_lang_compiler::diagnostics::DiagnosticsReporter;
 use cairo_lang_compiler::project::setup_single_file_project;
-use cairo_lang_compiler::{CompilerConfig, compile_prepared_db_program};
+use cairo_lang_compiler::{CompilerConfig, compile_prepared_db_program_artifact};
 use cairo_lang_diagnostics::Severity;
 use cairo_lang_filesystem::cfg::{Cfg, CfgSet};
 use cairo_lang_filesystem::db::init_dev_corelib;
@@ -213,12 +213,17 @@ fn diagnose(db: &RootDatabase, ci: &CrateInput) -> UnitDiag {
 fn compile_crates(db: &RootDatabase, cis: &[CrateInput], gas: bool) -> Result<(usize, usize), (String, String)> {
     let r = catch(AssertUnwindSafe(|| -> Result<(usize, usize), (String, String)> {
         let ids = CrateInput::into_crate_ids(db, cis.to_vec());
+        // the artifact entry point with every kind of debug info requested (what Scarb's tooling asks for): the
+        // debug-info extraction runs over the same functions and must not panic either
         let cfg = CompilerConfig {
             diagnostics_reporter: DiagnosticsReporter::ignoring().with_crates(cis).allow_warnings(),
             replace_ids: false,
-            ..Default::default()
+            add_statements_functions: true,
+            add_statements_code_locations: true,
+            add_functions_debug_info: true,
+            add_type_names: true,
         };
-        let program = compile_prepared_db_program(db, ids, cfg).map_err(|e| ("sierra".to_string(), format!("{e:#}")))?;
+        let program = compile_prepared_db_program_artifact(db, ids, cfg).map_err(|e| ("sierra".to_string(), format!("{e:#}")))?.program;
         let info = ProgramRegistryInfo::new(&program).map_err(|e| ("program_registry".to_string(), format!("{e}")))?;
         let metadata = if gas {
             calc_metadata(&program, &info, MetadataComputationConfig::default())
